@@ -365,7 +365,10 @@ fn h_cmp_read_step() {
     kani::cover!(at_edge && !ready && c < total, "block change");
     kani::cover!(c == total, "at the end of the stream");
     kani::cover!(ready && c < total, "first read of a block");
-    unsafe { brotli::DEC_FULL = false };
+    unsafe {
+        brotli::DEC_FULL = false;
+        ABS_POS = ipos;
+    }
     let mut buf = [0u8; 8];
     let res = r.read(&mut buf[..blen]);
     match res {
@@ -382,6 +385,11 @@ fn h_cmp_read_step() {
                         if ready || at_edge {
                             assert!(unsafe { LAST_SEEK_TARGET } == sum_first(&sizes, b), "a new block is opened at the sum of the preceding compressed sizes");
                             assert!(decompressor.get_ref().limit() <= u64::from(sizes[b]));
+                            // wherever the previous decompressor stopped fetching (a short-reading
+                            // source leaves the last bytes of a block unread), the new block's
+                            // bytes are taken from its recorded start
+                            let consumed = u64::from(sizes[b]) - decompressor.get_ref().limit();
+                            assert!(unsafe { ABS_POS } == sum_first(&sizes, b) + consumed, "the bytes fed to a new block's decompressor start at the block's recorded offset, wherever the previous one stopped reading");
                         }
                     }
                     _ => assert!(false, "reader not inside a block after reading inside the stream"),
